@@ -22,6 +22,8 @@ type CollectOpts struct {
 	Hostile   bool     // add the fixed hostile inputs
 	Long      bool     // add long repetitions
 	Pumped    int      // add this many inputs of up to 240 runes whose repetitions iterate many times
+	LeadSwap  bool     // add inputs whose first character is exchanged for each of the characters choices dispatch on
+	Pad       int      // percent of grammars padded with filler rules so that rule numbers straddle 255 / 256
 	Huge      int      // add this many inputs of up to 6000 runes (repetitions iterate up to 2999 times): thousands of tokens
 	Histories int      // number of histories per grammar
 	MaxRune   bool     // allow U+10FFFF in terminals
@@ -35,7 +37,7 @@ type CollectOpts struct {
 }
 
 // HostileInputs is the fixed hostile set of DESIGN.md 3.2 (d).
-var HostileInputs = []string{"", "\n", "\x00", "\xff", "a\xffb", "\xf0\x9f", "\U0010FFFF", "a\U0010FFFF", "\r\n", "é", "世", "😀", "�"}
+var HostileInputs = []string{"", "\n", "\x00", "\xff", "a\xffb", "\xf0\x9f", "\U0010FFFF", "a\U0010FFFF", "\r\n", "é", "世", "😀", "�", "\uFEFF", "\uFEFFa", "a\uFEFF"}
 
 // Collect draws N cases with rapid; the batch is a pure function of (generators, seed, opts).
 func Collect(seed uint64, o CollectOpts) []*Case {
@@ -69,6 +71,15 @@ func Collect(seed uint64, o CollectOpts) []*Case {
 				}
 			}
 			break
+		}
+		if o.Pad > 0 && rapid.IntRange(0, 99).Draw(t, "pad?") < o.Pad && len(g.Rules) >= 2 {
+			// rule numbers count from 1 in grammar order; actions and the capture pseudo-rule
+			// follow the rules. Put the boundary between two of the grammar's own rules, or
+			// between its rules and its actions.
+			at := rapid.IntRange(1, len(g.Rules)).Draw(t, "padat")
+			target := rapid.IntRange(253, 258).Draw(t, "padtarget")
+			gram.PadRules(g, at, target-at)
+			g.Number()
 		}
 		cs := &Case{ID: o.FirstID + idx, Profile: pname, G: g}
 		if o.Spelling && rapid.IntRange(0, 2).Draw(t, "spell?") > 0 {
@@ -128,6 +139,20 @@ func Collect(seed uint64, o CollectOpts) []*Case {
 				}
 			}
 		}
+		if o.LeadSwap {
+			// what one alternative of a choice accepts, behind the first character of another
+			for e := range g.Rules {
+				rs := gram.Sample(g, e, ch, 24)
+				if len(rs) < 2 {
+					continue
+				}
+				for _, r := range "abcdef01" {
+					if r != rs[0] {
+						add(string(r) + string(rs[1:]))
+					}
+				}
+			}
+		}
 		for k := 0; k < 3; k++ {
 			n := rapid.IntRange(1, 6).Draw(t, "rndlen")
 			var sb strings.Builder
@@ -155,7 +180,7 @@ func Collect(seed uint64, o CollectOpts) []*Case {
 				if len(rs) == 0 {
 					continue
 				}
-				bad := rapid.SampledFrom([]string{"\xff", "\x80", "\xc3", "\x00", "\U0010FFFF", "\xed\xa0\x80"}).Draw(t, "hostilebyte")
+				bad := rapid.SampledFrom([]string{"\xff", "\x80", "\xc3", "\x00", "\U0010FFFF", "\xed\xa0\x80", "\uFEFF", "\uFEFF"}).Draw(t, "hostilebyte")
 				// every position is tried, those inside a capture that an action reads first
 				var order []int
 				inCap := map[int]bool{}
@@ -173,6 +198,10 @@ func Collect(seed uint64, o CollectOpts) []*Case {
 					if !inCap[at] {
 						order = append(order, at)
 					}
+				}
+				if bad == "\uFEFF" {
+					// a byte order mark is a character like any other: first of all in front
+					order = append([]int{0}, order...)
 				}
 				for _, at := range order {
 					in := string(rs[:at]) + bad + string(rs[at+1:])
